@@ -144,15 +144,26 @@ const ADLENS: [Option<usize>; 7] = [None, Some(0), Some(1), Some(15), Some(16), 
 fn run_history(cx: &mut Ctx, rng: &mut Rng, hid: u64, depth: usize, class: usize, use_obj: bool, log_offline: bool) {
     let key: [u8; 32] = rng.arr();
     // ---- initialisation, alternating which library picks the header
+    // the State object handed to init is, in half of the histories, one that already served another stream (any key, any
+    // counter, possibly rekeyed): initialisation must not depend on what the object held before
+    let used_state = |rng: &mut Rng| -> ss::State {
+        if rng.chance(1, 2) {
+            ss::State::new()
+        } else {
+            let mut n = [0u8; 12];
+            rng.fill(&mut n);
+            ss::State::verif_from_parts(rng.arr(), n)
+        }
+    };
     let (header, dpush0, npush0) = if hid % 2 == 0 {
-        let mut st = ss::State::new();
+        let mut st = used_state(rng);
         let mut header = stale_arr::<24>();
         ss::crypto_secretstream_xchacha20poly1305_init_push(&mut st, &mut header, &key);
         let n = na::stream_init_pull(&header, &key); // same derivation as init_push with this header
         (header, st, n)
     } else {
         let (n, header) = na::stream_init_push(&key);
-        let mut st = ss::State::new();
+        let mut st = used_state(rng);
         ss::crypto_secretstream_xchacha20poly1305_init_pull(&mut st, &header, &key);
         (header, st, n)
     };
